@@ -14,7 +14,8 @@ EXTERNAL_CLASSES = {
 }
 EXTERNAL_MODULES = {'re', 'copy', 'collections', 'queue', 'threading', 'time', 'os', 'sys',
                     'warnings', 'logging', 'os.path'}
-EXTERNAL_CONSTS = {'re.IGNORECASE': ('re-flag', 'I'), 're.I': ('re-flag', 'I')}
+EXTERNAL_CONSTS = {'re.IGNORECASE': 2, 're.I': 2, 're.UNICODE': 32, 're.U': 32, 're.DOTALL': 16,
+                   're.S': 16, 're.MULTILINE': 8, 're.M': 8, 're.VERBOSE': 64, 're.X': 64, 're.ASCII': 256}
 
 # uninterpreted functions
 absval = z3.Function('absval', RefSort, z3.IntSort())       # value identity of an opaque object (== compares it)
@@ -176,14 +177,38 @@ def obj_delitem(ex, ptr, c, idx, node):
 
 
 def obj_getattr_missing(ex, ptr, c, attr, node):
-    # an attribute that is neither a declared field nor found in the class
+    """An attribute that is neither a declared field nor found in the class:
+    AttributeError only when the class hierarchy is closed by __slots__ and no
+    slot has that name; otherwise the object is out of reach."""
     info = ex.find_class(c.cls)
-    if info is not None and not any(isinstance(b, str) and b not in ('object',) for b in info.mro()):
-        # class fully known and has no such attribute: AttributeError at run time
-        ga = info.find_method('__getattr__')
-        if ga is None and c.spec is not None and not c.spec.get('__open__'):
-            ex.raise_('AttributeError', node)
-    return None
+    if info is None:
+        return None
+    slots = set()
+    for k in info.mro():
+        if isinstance(k, str):
+            if k in ('object',):
+                continue
+            return None
+        a = k.attrs.get('__slots__')
+        if a is None:
+            return None
+        try:
+            v = ex.cached_const((k.module.name, k.name + '.__slots__'), k.module, a, '__slots__')
+        except EngineLimit:
+            return None
+        items = ex.iter_concrete(v, node)
+        if items is None:
+            return None
+        for it in items:
+            cs = it.concrete() if isinstance(it, VStr) else None
+            if cs is None:
+                return None
+            slots.add(cs)
+    if attr in slots:
+        return None     # a real slot the contract did not declare: out of reach
+    if info.find_method('__getattr__') is not None:
+        return None
+    ex.raise_('AttributeError', node)
 
 
 def field_fn(cls, attr, kind):
@@ -556,6 +581,8 @@ def _isinstance(ex, fn, args, kw, node):
 @builtin('issubclass')
 def _issubclass(ex, fn, args, kw, node):
     c, t = args
+    if isinstance(c, VBuiltin) and c.name in ('bool', 'str', 'int', 'float', 'list', 'dict', 'tuple', 'bytes'):
+        c = VClass(c.name)
     if not isinstance(c, VClass):
         ex.raise_('TypeError', node)
     targets = t.items if isinstance(t, VTuple) else [t]
